@@ -99,6 +99,35 @@ func C10(c *Ctx) int {
 			c.HandleGenCex(o, it, r)
 		}
 	}
+	// concrete precondition over every lexer corpus item: emitted rows are well-formed
+	var all []*corpus.LexSpec
+	all = append(all, corpus.LexGreedy()...)
+	all = append(all, corpus.LexModes()...)
+	all = append(all, corpus.LexNonGreedy()...)
+	all = append(all, corpus.LexNumbering()...)
+	items2, err := c.Generate(nil, all)
+	if err == nil {
+		gprog2, err2 := c.LoadGen()
+		if err2 != nil {
+			o.Broken = append(o.Broken, "load: "+err2.Error())
+		} else {
+			for _, it := range items2 {
+				if !(it.ExitOK && it.Files) {
+					continue
+				}
+				h := Harness{Name: "gen.RowInvariant[" + it.Name + "]", Func: "H_RowInvariant", Quiet: true, Reach: []string{"rows-checked"},
+					Bounds: "concrete: every row of every mode table of the item (precondition of the kernel lemmas, not solver-decided)"}
+				r, err := c.RunGenHarness(gprog2, it, h)
+				if err != nil {
+					o.Broken = append(o.Broken, err.Error())
+					continue
+				}
+				o.Add(r)
+				byName[r.H.Name] = it
+				c.HandleGenCex(o, it, r)
+			}
+		}
+	}
 	c.ValidateSamples(o, byName, 4)
 	o.Assumptions = []string{"row invariant assumed by PushRuneUnit/FindUnit (sorted, disjoint, B<=E; pairs behind an in-range index) is what TableRoundTrip and the per-item differentials (C01, C02) establish for emitted tables",
 		"table layout taken from the documentation comments in emit_parser.go / emit_lexer.go"}
